@@ -20,7 +20,8 @@ EXPLANATION = ('Theorems in Props/C18.lean about the model scanner: tokens indep
 ASSUMPTIONS = ['a data directive is always the last statement on its line (the data-line pattern owns the rest of the line)',
                'quoted literals are generated without backslash escapes; preprocessor directives are not part of the rewritten language']
 LEVEL = 'proof'
-MNEMS = ['nop', 'ldn', 'ldi', 'ldw', 'jr', 'jre', 'st', 'inc', 'mv', 'ldx', 'ldv', 'ldd']
+# 'b.ne' / 'b.eq': mnemonics with a period whose pieces ('b', 'ne', 'eq') are no mnemonics themselves
+MNEMS = ['nop', 'ldn', 'ldi', 'ldw', 'jr', 'jre', 'st', 'inc', 'mv', 'ldx', 'ldv', 'ldd', 'b.ne', 'b.eq', 'b.ne']
 
 
 def gen_program(rng):
@@ -82,6 +83,10 @@ def gen_program(rng):
                 toks = ['ldd', '[', '[', val(), ']', ']'] if rng.random() < 0.7 else ['ldd', '[', '[', val(), '+', '1', ']', ']']
             elif mn == 'inc':
                 toks = ['inc', reg()]
+            elif mn == 'b.ne':
+                toks = ['b.ne', val()]
+            elif mn == 'b.eq':
+                toks = ['b.eq']
             elif mn == 'ldv':
                 # numeric variant first, register variant second: the letter case of the register must not decide
                 toks = ['ldv', reg() if rng.random() < 0.7 else val()]
@@ -202,6 +207,8 @@ def gen_case(rng, tier):
     instrs_y['ldd'] = {'bytecode': {'value': 0x63, 'size': 8}, 'operands': {'count': 1, 'operand_sets': {'list': ['def16']}}}
     instrs_y['ldv'] = {'bytecode': {'value': 0x61, 'size': 8}, 'operands': {'count': 1, 'operand_sets': {'list': ['imm8']}},
                        'variants': [{'bytecode': {'value': 0x62, 'size': 8}, 'operands': {'count': 1, 'operand_sets': {'list': ['regs']}}}]}
+    instrs_y['b.ne'] = {'bytecode': {'value': 0x71, 'size': 8}, 'operands': {'count': 1, 'operand_sets': {'list': ['imm8']}}}
+    instrs_y['b.eq'] = {'bytecode': {'value': 0x72, 'size': 8}}
     isa = {'description': 'c18', 'general': {'address_size': 16, 'endian': de, 'registers': list(C10.REGS)},
            'operand_sets': osets, 'instructions': instrs_y}
     consts, stmts = gen_program(rng)
@@ -226,7 +233,7 @@ def to_impl(case):
 
 
 def to_model(case):
-    return [{'op': 'scan', 'mnemonics': MNEMS, 'registers': list(C10.REGS), 'text': t} for t in case['variants']]
+    return [{'op': 'scan', 'mnemonics': sorted(set(MNEMS)), 'registers': list(C10.REGS), 'text': t} for t in case['variants']]
 
 
 def judge(case, irs, mrs):
